@@ -358,6 +358,22 @@ func c19VersionRejections(w *W, r *rand.Rand) {
 					} else if o.Err == nil {
 						w.Fail("version-accepted-out-of-domain", "%s = %s; a component >= 10000 or non-numeric within the first %d components must be rejected", src, o, nEff)
 					}
+					// a rejected text leaves nothing behind: the next conversion of a short version reads its missing components as 0
+					if w.Evals%3 == 0 {
+						short := []string{"2", "7.1", "3"}[int(w.Evals/3)%3]
+						n2 := 3 + int(w.Evals/7)%2
+						comps, _ := versionComponents(short, n2)
+						want := int64(0)
+						for _, c := range comps {
+							want = want*refVersionBase + c
+						}
+						src2 := fmt.Sprintf("(%s \"%s\" %d)", alias, short, n2)
+						o2 := c19EvalSrc(w, src2, opts)
+						w.Inc("conversions_after_a_rejection")
+						if o2.Panic != nil || o2.Err != nil || !valEq(o2.V, want) {
+							w.Fail("version-encoding-wrong/after-rejection", "%s = %s right after %s was rejected; the version with its missing components read as 0 encodes to %d", src2, o2, src, want)
+						}
+					}
 				}
 			}
 		}
